@@ -53,11 +53,12 @@ def _run_dw(c, history, reuse, thr, interp_each_step=True):
     cls = _classes(c["data"], c["labels"])
     _set_threshold(thr)
     try:
-        grid = GlobalTrapezoidalGrid(a=a, b=b, modified_basis=False, boundary=False)
+        bnd = bool(c.get("boundary", False))
+        grid = GlobalTrapezoidalGrid(a=a, b=b, modified_basis=False, boundary=bnd)
         op = DensityEstimation(X.copy(), d, grid=grid, masslumping=False, lambd=c["lambda"], classes=None if cls is None else cls.copy(),
                                reuse_old_values=reuse, numeric_calculation=False, print_output=False, pre_scaled_data=True,
                                print_level=1000, log_level=1000)
-        cfg = {"d": d, "lmin": 1, "lmax": c["lmax"], "version": 6, "rebalancing": False, "boundary": False}
+        cfg = {"d": d, "lmin": 1, "lmax": c["lmax"], "version": 6, "rebalancing": False, "boundary": bnd}
         # the density is also interpolated after EVERY evaluation (as a user monitoring the refinement would): caches filled by an
         # earlier interpolation must not leak into a later one
         obs = (lambda run: run.sa(LATTICE)) if interp_each_step else None
@@ -102,6 +103,8 @@ def _dw_case(case):
         # with reuse on, a previous step, and a grid at or above the size threshold)
         key = {"grid": "dimension-wise", "reuse": reuse, "threshold": "natural" if thr is None else "lowered",
                "rhs_reuse_branch": bool(reuse and thr is not None and len(history) > 0)}
+        if c.get("boundary"):
+            key["boundary"] = True
         other = _run_dw(c, history, reuse, thr)
         _compare(base, other, "reuse=%s threshold=%s (density interpolated after every step) vs reuse=False threshold=200 (interpolated once)" % (reuse, thr), key, fails)
     sa = base[0]
@@ -201,6 +204,11 @@ def main(ctx):
         cfg = {"kind": "dw", "data": data, "labels": labels, "lambda": lam, "lmax": lmax, "s": s}
         tag = "dw_%s_%s_lam%s_lmax%d_D%d_s%d" % (data, labels, lam, lmax, D, s)
         ctx.bounds[tag] = core.bfs(ctx, cfg, D, tag=tag)
+    # grids WITH boundary points (position 0 is a real grid point in the large-grid index arithmetic)
+    for data, labels, lam, lmax, D, s in [("mixed", "none", 0.01, 2, 2 if q else 3, 1), ("gridlines", "pm1", 0.0, 2, 1 if q else 2, 1)]:
+        cfg = {"kind": "dw", "data": data, "labels": labels, "lambda": lam, "lmax": lmax, "s": s, "boundary": True}
+        tag = "dw_boundary_%s_%s_lam%s_lmax%d_D%d_s%d" % (data, labels, lam, lmax, D, s)
+        ctx.bounds[tag] = core.bfs(ctx, cfg, D, tag=tag)
     # uniform combinations
     cases = []
     for data in DATA:
@@ -230,6 +238,6 @@ def main(ctx):
         rule="dimension-wise: BFS over refinement-decision histories (scripted estimator, real loop); uniform: lattice data x labels x "
              "lambda x level range x mass lumping; EVERY state/case is executed on 6 real instances (reuse on/off x threshold 200/0/8) and "
              "compared with the reuse-off / natural-threshold instance (evaluations = instances run)",
-        assumptions=["d=2, data in the unit cube (pre_scaled_data), GlobalTrapezoidalGrid without boundary points, rebalancing off",
+        assumptions=["d=2, data in the unit cube (pre_scaled_data), GlobalTrapezoidalGrid without (and, for two configurations, with) boundary points, rebalancing off",
                      "size threshold moved through the guarded hook sparseSpACE.GridOperation._VERIF_DE_THRESHOLD (SPARSESPACE_VERIF=1)",
                      "agreement tolerance 1e-9 relative"])
